@@ -18,9 +18,9 @@ import (
 
 func init() {
 	ev.Register(&ev.Check{
-		ID:    "C17",
-		Level: "exploration",
-		Rule: "(a) rendering: ALL file contents of length 0..7 (thorough 8) over {a,space,tab,LF,CR} x ALL positions inside the file through the public errors.NewDocumentError+SetIndex: Line(), SourceSubString(), Error() must not panic for any content, and for consistently terminated files must equal the reference renderer (1-based line, left-trimmed text, caret column); line-length families around the 200-byte truncation x LF/CR/CRLF x boundary positions. (b) parsing positions: BFS over the reference PDA's states (nesting <= 4) and all strings <= 4 symbols: for every live w and symbol c with w.c dead the library's error position must be |w|, for every live non-accepting w the end-of-input error position must be |w|-1. (c) validation positions: generated (schema, document) pairs with one planted violation at every nesting position. Non-trivial = distinct (content, position) with a non-blank line, or distinct (w, c).",
+		ID:             "C17",
+		Level:          "exploration",
+		Rule:           "(a) rendering: ALL file contents of length 0..7 (thorough 8) over {a,space,tab,LF,CR} x ALL positions inside the file through the public errors.NewDocumentError+SetIndex: Line(), SourceSubString(), Error() must not panic for any content, and for consistently terminated files must equal the reference renderer (1-based line, left-trimmed text, caret column); line-length families around the 200-byte truncation x LF/CR/CRLF x boundary positions. (b) parsing positions: BFS over the reference PDA's states (nesting <= 4) and all strings <= 4 symbols: for every live w and symbol c with w.c dead the library's error position must be |w|, for every live non-accepting w the end-of-input error position must be |w|-1. (c) validation positions: generated (schema, document) pairs with one planted violation at every nesting position. Non-trivial = distinct (content, position) with a non-blank line, or distinct (w, c).",
 		Run:            run,
 		Replay:         replay,
 		QuickBudget:    70 * time.Second,
